@@ -18,7 +18,8 @@
 (* What the code does and a design would not (each is a CONSTANT with the code's value TRUE, so that the   *)
 (* design-level invariant it breaks can be shown broken, and shown to hold when it is FALSE):              *)
 (*   SendOnClosedOk     D1  an append on a context that was closed after the lookup succeeds ("ok") and    *)
-(*                          the entry is in the log (found after the next activation)                      *)
+(*                          the entry is in the log (found after the next activation) - unless a context   *)
+(*                          opened meanwhile appends first: then the acknowledged entry is lost (D1')      *)
 (*   StaleDeactDeletes  D2  deactivateGroup's second step closes the context it looked up EARLIER but      *)
 (*                          deletes whatever openedGroups holds NOW (and clears accountGroupCtx): after    *)
 (*                          deactivate || (deactivate; activate) a live, activated context is left that    *)
@@ -28,8 +29,10 @@
 (* and two that have no switch: D3 an open-ended listing subscribed before a deactivation neither ends nor  *)
 (* follows the group to its next context (it ends when its client goes away); D5 an activation whose       *)
 (* second step runs after Close leaves a group open in a closed service.                                   *)
-(* Deliberate restrictions: no request STARTS after Close has returned; MultiMemberGroupCreate only while   *)
-(* "M" is not joined, and nobody addresses "M" while it is being created (its key is in the reply);         *)
+(* Deliberate restrictions: one Close per behaviour; MultiMemberGroupCreate only while "M" is not joined,    *)
+(* and nobody addresses "M" while it is being created (its key is in the reply); Join / Accept / Create are *)
+(* atomic here although the handlers check the account's index and append in two steps without a lock (D7: *)
+(* two concurrent accepts / joins both pass the check and both append - such pairs are not generated);      *)
 (* localOnly is a parameter without effect here (no network); replication, other members and the          *)
 (* contact-request manager are outside.                                                                    *)
 EXTENDS Integers, Sequences, FiniteSets, TLC
@@ -44,8 +47,10 @@ VARIABLES known,    \* groups the secret store's group datastore holds
           opened,   \* s.openedGroups: group -> context number (0 = no entry)
           acct,     \* s.accountGroupCtx: context number of "A" (0 = nil)
           odb,      \* odb.groupContexts: group -> context number of the entry (0 = none)
-          ctx,      \* group -> sequence of contexts ever created: [closed, na = ActivateGroupContext calls]
-          msgs, meta, \* app messages / app metadata entries in the group's logs (persist across contexts)
+          ctx,      \* group -> sequence of contexts ever created: [closed, na = ActivateGroupContext calls,
+                    \*   vm / vd = app messages / app metadata entries THIS context's log holds]
+          msgs, meta, \* what the next Load of the group's logs will find: the cache names the entry appended LAST as the
+                    \* only local head, so it is the view of the context that appended last (persists across contexts)
           svc,      \* "up" | "closing" | "closed"
           strm,     \* the open-ended message listing: [on, g, k = context it subscribed to, n = events received]
           pc,       \* client -> request in flight
@@ -61,7 +66,7 @@ Init == /\ known = {"A"} /\ joined = {}
         /\ opened = [g \in G |-> IF g = "A" THEN 1 ELSE 0]
         /\ acct = 1
         /\ odb = [g \in G |-> IF g = "A" THEN 1 ELSE 0]
-        /\ ctx = [g \in G |-> IF g = "A" THEN <<[closed |-> FALSE, na |-> 1]>> ELSE <<>>]
+        /\ ctx = [g \in G |-> IF g = "A" THEN <<[closed |-> FALSE, na |-> 1, vm |-> 0, vd |-> 0]>> ELSE <<>>]
         /\ msgs = [g \in G |-> 0] /\ meta = [g \in G |-> 0]
         /\ svc = "up" /\ strm = NoStrm
         /\ pc = [c \in Clients |-> Idle]
@@ -87,7 +92,7 @@ PKRes(g) == IF g \in known THEN [ok |-> TRUE, kn |-> known, e |-> "-"]
 NewK(g) == IF Live(g) THEN odb[g] ELSE Len(ctx[g]) + 1
 OpenAct(g) ==
   /\ ctx' = IF Live(g) THEN [ctx EXCEPT ![g][odb[g]].na = IF ReactivateStacks THEN @ + 1 ELSE @]
-            ELSE [ctx EXCEPT ![g] = Append(@, [closed |-> FALSE, na |-> 1])]
+            ELSE [ctx EXCEPT ![g] = Append(@, [closed |-> FALSE, na |-> 1, vm |-> msgs[g], vd |-> meta[g]])]
   /\ odb' = [odb EXCEPT ![g] = NewK(g)]
   /\ opened' = [opened EXCEPT ![g] = NewK(g)]
 
@@ -97,7 +102,8 @@ Deact2(g, k) ==
   /\ opened' = [opened EXCEPT ![g] = IF StaleDeactDeletes \/ @ = k THEN 0 ELSE @]
   /\ acct' = IF g = "A" /\ (StaleDeactDeletes \/ acct = k) THEN 0 ELSE acct
 
-CanStart(c, op) == pc[c].stage = "idle" /\ svc # "closed" /\ nreq < MaxReq /\ op \in OpKinds
+\* requests are also taken after Close has returned (the handlers do not look at it): what is opened then stays open (D5)
+CanStart(c, op) == pc[c].stage = "idle" /\ nreq < MaxReq /\ op \in OpKinds
 MFree == \A d \in Clients : pc[d].op # "create"
 Addr(g) == g # "M" \/ MFree
 Req(c, op, g, lo, stage, ref, todo) == [op |-> op, g |-> g, lo |-> lo, stage |-> stage, ref |-> ref, todo |-> todo]
@@ -157,20 +163,23 @@ StepSend(c) ==
          k == pc[c].ref
          dead == ctx[g][k].closed IN
        IF dead /\ ~SendOnClosedOk
-       THEN /\ Reply(c, "err:ErrOrbitDBAppend/closed", -1) /\ UNCHANGED <<msgs, meta, strm>>
-       ELSE /\ IF pc[c].op = "sendm" THEN msgs' = [msgs EXCEPT ![g] = @ + 1] /\ UNCHANGED meta
-               ELSE meta' = [meta EXCEPT ![g] = @ + 1] /\ UNCHANGED msgs
+       THEN /\ Reply(c, "err:ErrOrbitDBAppend/closed", -1) /\ UNCHANGED <<msgs, meta, strm, ctx>>
+       ELSE \* the entry is appended to the log of THAT context (closed or not) and becomes the cached head: a context opened
+            \* meanwhile does not see it, and its own next append makes it unreachable for good (D1, second half)
+            /\ IF pc[c].op = "sendm"
+               THEN /\ ctx' = [ctx EXCEPT ![g][k].vm = @ + 1] /\ msgs' = [msgs EXCEPT ![g] = ctx[g][k].vm + 1] /\ UNCHANGED meta
+               ELSE /\ ctx' = [ctx EXCEPT ![g][k].vd = @ + 1] /\ meta' = [meta EXCEPT ![g] = ctx[g][k].vd + 1] /\ UNCHANGED msgs
             \* a closed context's store publishes nothing: the listing that subscribed to it sees nothing
             /\ strm' = IF strm.on /\ strm.g = g /\ strm.k = k /\ pc[c].op = "sendm" /\ ~dead
                        THEN [strm EXCEPT !.n = @ + 1] ELSE strm
             /\ Reply(c, "ok", -1)
-  /\ UNCHANGED <<known, joined, opened, acct, odb, ctx, svc, nreq>>
+  /\ UNCHANGED <<known, joined, opened, acct, odb, svc, nreq>>
 
 (* ---- GroupMessageList / GroupMetadataList until now ("listm" / "listd"): what the log holds *)
 List(c, g, kind) ==
   /\ CanStart(c, kind) /\ Addr(g)
   /\ IF opened[g] = 0 THEN Reply(c, "err:ErrGroupMemberUnknownGroupID/ErrGroupUnknown", -1)
-     ELSE Reply(c, "ok", IF kind = "listm" THEN msgs[g] ELSE meta[g])
+     ELSE Reply(c, "ok", IF kind = "listm" THEN ctx[g][opened[g]].vm ELSE ctx[g][opened[g]].vd)
   /\ nreq' = nreq + 1
   /\ UNCHANGED <<known, joined, opened, acct, odb, ctx, msgs, meta, svc, strm>>
 
@@ -250,6 +259,7 @@ Next == (\E c \in Clients : Start(c) \/ Step(c)) \/ ("cancel" \in OpKinds /\ Can
 Spec == Init /\ [][Next]_vars
 
 Bound == /\ \A g \in G : Len(ctx[g]) <= MaxGen /\ msgs[g] <= MaxMsg /\ meta[g] <= MaxMsg
+         /\ \A g \in G : \A k \in DOMAIN ctx[g] : ctx[g][k].vm <= MaxMsg /\ ctx[g][k].vd <= MaxMsg
          /\ \A g \in G : \A k \in DOMAIN ctx[g] : ctx[g][k].na <= MaxAct
 
 (* ------------------------------------------------------------------ design-level properties *)
@@ -275,6 +285,10 @@ NoWorkOnClosed == [][\A c \in Clients : (pc[c].stage = "send" /\ pc'[c].stage = 
 \* while the account group is deactivated a contact group is not activated
 ContactNeedsAccount == [][\A c \in Clients : (pc[c].stage = "act" /\ pc[c].g = "C" /\ pc'[c].stage = "idle" /\ acct = 0)
                                                 => res'[c].r # "ok"]_vars
-\* the logs only grow: a deactivation / activation loses nothing, and a listing returns what the log holds
+\* the number of entries a Load would find never shrinks (holds; it does not say that they are the SAME entries)
 LogsGrow == [][\A g \in G : msgs'[g] >= msgs[g] /\ meta'[g] >= meta[g]]_vars
+\* with no request in flight, the opened context's log is what a Load would find: a listing returns every acknowledged send
+\* (broken by D1': the entry a stale send appended to a closed context is the cached head, but the context opened meanwhile does
+\* not hold it - and its own next append cuts the entry off for good)
+ViewIsLog == AllIdle => \A g \in G : opened[g] # 0 => (ctx[g][opened[g]].vm = msgs[g] /\ ctx[g][opened[g]].vd = meta[g])
 =============================================================================
